@@ -21,6 +21,7 @@ import (
 	"verif/harness/checks/c17"
 	"verif/harness/checks/c18"
 	"verif/harness/checks/c19"
+	"verif/harness/checks/c20"
 	"verif/harness/vf"
 )
 
@@ -43,6 +44,7 @@ var checks = map[string]func(*vf.Check){
 	"C17": c17.Run,
 	"C18": c18.Run,
 	"C19": c19.Run,
+	"C20": c20.Run,
 }
 
 func transcript(path string) error { return c18.Transcript(path) }
